@@ -10,4 +10,6 @@ META = dict(
 
 
 def harnesses(tier):
-    return []
+    from contracts.modules import transform_harness
+    from contracts.elementwise import SPECS, FUNCTIONAL
+    return [transform_harness(SPECS[n], m, {"C02"}) for n in FUNCTIONAL for m in ("if", "fi")]
